@@ -9,7 +9,8 @@
 (* alpha + leading zero, alpha + sign).                                    *)
 (***************************************************************************)
 EXTENDS Naturals, Sequences, FiniteSets, TLC
-Symbols == {"alpha", "d0", "d1", "d5", "plus", "a", "Z", "rho", "euro", "phi", "sp"}
+Symbols == {"alpha", "d0", "d1", "d5", "plus", "a", "Z", "rho", "euro", "phi", "sp", "bsl", "quo", "apo"}   \* backslash, quote, apostrophe:
+                                                                                 \* characters a printer may be tempted to escape
 Digits == {"d0", "d1", "d5"}
 DigitVal(d) == CASE d = "d0" -> 0 [] d = "d1" -> 1 [] d = "d5" -> 5
 RECURSIVE Num(_, _)
